@@ -152,3 +152,22 @@ func VerifDumpTypes(p *Program) []string {
 	})
 	return res
 }
+
+// VerifVMNesting reports how deeply the running code is nested: the number of
+// try frames that belong to script try statements (as opposed to the marker
+// frames pushed at Go boundaries) and the number of sentinel call frames
+// (pc == -2) that mark a Go -> script call made while a script was running.
+func VerifVMNesting(r *Runtime) (scriptTry, goToScript int) {
+	vm := r.vm
+	for i := range vm.tryStack {
+		if vm.tryStack[i].catchPos != tryPanicMarker {
+			scriptTry++
+		}
+	}
+	for i := range vm.callStack {
+		if vm.callStack[i].prg == nil && vm.callStack[i].pc == -2 {
+			goToScript++
+		}
+	}
+	return
+}
